@@ -14,6 +14,7 @@ package main
 
 import (
 	"encoding/json"
+	"strings"
 	"time"
 
 	"github.com/high-moctane/mocrelay"
@@ -131,8 +132,28 @@ func (x *c18Ctx) op() mwOp {
 
 var c18Kinds = []string{"max_subs", "recv_unique", "send_unique"}
 
+// ids as they really are: 64 hex digits that agree on their first 16, 32 or 63 digits, and ids that are
+// prefixes of one another; subscription ids of the maximal length (64) and beyond that share their first 64 bytes
+var c18LongEvs = []string{
+	"0123456789abcdef" + strings.Repeat("a", 48), "0123456789abcdef" + strings.Repeat("b", 48),
+	"0123456789abcdef0123456789abcdef0123456789abcdef0123456789abcde0",
+	"0123456789abcdef0123456789abcdef0123456789abcdef0123456789abcde1",
+}
+var c18LongSubs = []string{strings.Repeat("s", 64), strings.Repeat("s", 64) + "a", strings.Repeat("s", 64) + "b"}
+
 func c18Gen(root *common.Rand, i int) c18Case {
 	r := root.Fork(uint64(i))
+	c18Evs, c18Subs = []string{"x", "y", "z"}, []string{"a", "b", "c"}
+	switch r.Intn(12) {
+	case 0:
+		c18Evs = c18LongEvs[:3]
+	case 1:
+		c18Evs = []string{c18LongEvs[2], c18LongEvs[3], c18LongEvs[0]}
+	case 2:
+		c18Evs = []string{"x", "xx", "xxx"}
+	case 3:
+		c18Subs = c18LongSubs
+	}
 	var c c18Case
 	kinds := map[string]bool{}
 	if i%5 < 3 {
